@@ -17,6 +17,7 @@ from fractions import Fraction
 import z3
 
 ENGINE = None          # the Engine currently executing a path (set by Engine.run_path)
+CONCRETE_EVAL = None   # set by selftest/crosscheck.py: numeric evaluation of closed terms (concrete mode only)
 
 
 def cur():
